@@ -88,6 +88,10 @@ var reqHeaderPalette = [][]hdrKV{
 	{{"X-Forwarded-Proto", "https"}, {"X-Forwarded-Host", "shop.example"}},
 	{{"Via", "1.1 edge"}},
 	{{"Referer", "https://shop.example/a?b=c"}, {"Origin", "https://shop.example"}},
+	// field names are tokens: underscores, digits and odd casing are as good as dashes
+	{{"X_Api_Key", "k-123"}},
+	{{"x_client_build", "77"}, {"X-Tenant_Id", "t9"}},
+	{{"X-1-Numeric-2", "n"}, {"x-UPPER-lower", "v"}},
 	// header lines with an empty value are lines all the same
 	{{"X-Empty", ""}},
 	{{"X-Flags", ""}, {"X-Flags", "b"}},
@@ -107,6 +111,7 @@ var respHeaderPalette = [][]hdrKV{
 	{{"Date", "Mon, 01 Jan 2024 00:00:00 GMT"}},
 	{{"Content-Language", "en"}},
 	{{"X-Multi", "a"}, {"X-Multi", "b"}},
+	{{"X_Backend_Build", "b7"}, {"x_trace_flags", "01"}},
 	// present-but-empty is not the same as absent
 	{{"X-Empty-Resp", ""}},
 	{{"Content-Type", ""}},
